@@ -103,6 +103,18 @@ def project(tid, events):
         ev = e["ev"]
         if ev in ("reg", "cb.begin", "cb.end", "res.event", "ctx.view", "svc.start"):
             continue
+        if ev == "comp.get":
+            # what a lookup through a ComponentContext finally gave its caller
+            if out and out[-1]["ev"] == "outside":
+                break
+            if e["ctx"] not in ctx or T(e["type"]) is None or not isinstance(e["name"], str):
+                continue
+            r = RESULT.get(e.get("r"), "other")
+            out.append({"ev": "cget", "c": ctx[e["ctx"]], "t": T(e["type"]), "n": N(e["name"]), "api": e["api"], "opt": bool(e["opt"]),
+                        "r": r if r in ("val", "None", "ResourceNotFound", "AsyncResourceError", "RuntimeError") else "other", "vid": V(e["vid"]) if "vid" in e else 0})
+            if len(names) > MAX_NAMES:
+                out[-1] = {"ev": "outside", "reason": "too-many-names"}
+            continue
         if ev == "comp.svc":
             # the service task a ComponentContext was asked to start, next to what it asked the real context to start
             if out and out[-1]["ev"] == "outside":
@@ -253,7 +265,9 @@ def add_to(rep: core.Report, prop: str):
                                         "rejected_for_another_property": dict(others), "steps_by_kind": dict(hits),
                                         "what": "the repository's test suite and harness/scenarios.py run with ASPHALT_VERIF_HOOKS=trace; every recorded "
                                                 "context operation replayed as the Ctx.tla action, results, events and all contexts' tables compared (Trace_CtxSuite.tla)"}
-    need = {"add-ok", "addfac-ok", "get-gen", "get-val", "new", "exit.end"}
+    rep.extra["recorded_executions"]["scenario_programs_that_ended_with_an_exception (informational)"] = \
+        {t["test"]: t["ended"] for t in record_scenarios() if t.get("ended", "normally") != "normally"}
+    need = {"add-ok", "addfac-ok", "get-gen", "get-val", "new", "exit.end", "cadd", "csvc", "cget"}
     if not need <= set(hits) and not rep.violations:
         raise core.MachineryError(f"recorded executions never exercised: {sorted(need - set(hits))}")
 
